@@ -133,7 +133,11 @@ type mstate struct {
 	jd, od [nAddr]bool
 	// reset: the account was replaced by CreateAccount over an existing account and nothing has marked it
 	// pending since (diagnosis only: the repo does not journal that replacement as a pending change)
-	reset  [nAddr]bool
+	reset [nAddr]bool
+	// gen: identity of the account object currently standing for the account (a new object is made when an
+	// account is created, re-created after destruction, or replaced by CreateAccount). State key only: whether
+	// the object a snapshot would bring back is still the current one decides where later writes leave traces.
+	gen    [nAddr]int
 	logs   []mlog
 	refund uint64
 }
@@ -142,6 +146,30 @@ func (s *mstate) clone() mstate {
 	c := *s
 	c.logs = append([]mlog(nil), s.logs...)
 	return c
+}
+
+// effRec: one letter of a lineage: alphabet index (-1 = Copy, continue on the copy) and, for AddLog, the payload
+// the log was given.
+type effRec struct{ op, arg int }
+
+// nextPayload: payload of the next log: one more than every payload alive anywhere in the world (instances and
+// their open snapshots), so that the logs of a world are pairwise distinct and the payload depends on the state only.
+func (w *mworld) nextPayload() int {
+	max := int64(0)
+	scan := func(l []mlog) {
+		for _, x := range l {
+			if x.data > max {
+				max = x.data
+			}
+		}
+	}
+	for _, in := range w.inst {
+		scan(in.logs)
+		for i := range in.snaps {
+			scan(in.snaps[i].st.logs)
+		}
+	}
+	return int(max) + 1
 }
 
 type msnap struct {
@@ -156,10 +184,14 @@ type minst struct {
 	snaps []msnap
 	// eff: the instance's effective lineage: indices of the ops that built its state, with reverted
 	// segments and the Snapshot/Revert/Switch letters removed. -1 = "Copy, continue on the copy".
-	eff []int
+	eff []effRec
 	// reverted: some op of this instance was undone by a revert, or the instance lives in a world with
 	// other instances; otherwise the twin is identical to the instance by construction.
 	touched bool
+	genCtr  int
+	// disk: the account records as last written into the instance's trie (state key only: an account that is
+	// neither pending nor to-be-committed is re-read from there by a copy)
+	disk [nAddr]macct
 	// foreign: another instance committed to the shared database while this instance (or the instance it
 	// was copied from) was alive (diagnosis of the flat key-value mode only)
 	foreign bool
@@ -182,6 +214,7 @@ func (s *mstate) getOrNew(a int) *macct {
 	if !ac.exists {
 		*ac = macct{exists: true, credits: 1}
 		s.jd[a] = true
+		s.gen[a] = -1 // numbered by apply
 	}
 	return ac
 }
@@ -221,6 +254,7 @@ func (in *minst) finalise() {
 		if in.acc[a].exists && in.acc[a].suicided {
 			in.acc[a] = macct{}
 		}
+		in.disk[a] = in.acc[a]
 		in.jd[a] = false
 		in.od[a] = true
 	}
@@ -232,6 +266,10 @@ func (in *minst) commit() {
 	for a := 0; a < nAddr; a++ {
 		if in.acc[a].exists && in.acc[a].suicided {
 			in.acc[a] = macct{}
+			in.disk[a] = macct{}
+		}
+		if in.jd[a] || in.od[a] {
+			in.disk[a] = in.acc[a]
 		}
 		in.jd[a] = false
 		in.od[a] = false
@@ -281,6 +319,7 @@ func (w *mworld) enabled(o op) bool {
 
 // apply executes o on the model. opIdx is the index of o in the search's alphabet (for the lineage).
 func (w *mworld) apply(o op, opIdx int) {
+	arg := 0
 	in := w.inst[w.act]
 	s := &in.mstate
 	record := true
@@ -343,6 +382,7 @@ func (w *mworld) apply(o op, opIdx int) {
 			*ac = macct{exists: true, credits: 1}
 			s.jd[o.a] = true
 		}
+		s.gen[o.a] = -1
 	case kSuicide:
 		ac := &s.acc[o.a]
 		if ac.exists {
@@ -353,7 +393,8 @@ func (w *mworld) apply(o op, opIdx int) {
 			s.jd[o.a] = true
 		}
 	case kAddLog:
-		s.logs = append(s.logs, mlog{in.th, int64(len(s.logs)) + 1})
+		arg = w.nextPayload()
+		s.logs = append(s.logs, mlog{in.th, int64(arg)})
 	case kAddRefund:
 		s.refund += uint64(o.v)
 	case kPrepare:
@@ -369,7 +410,7 @@ func (w *mworld) apply(o op, opIdx int) {
 		in.mstate = sn.st.clone()
 		in.eff = in.eff[:sn.effLen:sn.effLen]
 		if in.th != sn.th {
-			in.eff = append(in.eff, w.prep[in.th])
+			in.eff = append(in.eff, effRec{w.prep[in.th], 0})
 		}
 		in.snaps = in.snaps[:o.v]
 		record = false
@@ -380,9 +421,11 @@ func (w *mworld) apply(o op, opIdx int) {
 			c.od[a] = c.od[a] || c.jd[a]
 			c.jd[a] = false
 		}
-		c.eff = append(append([]int(nil), in.eff...), -1)
+		c.eff = append(append([]effRec(nil), in.eff...), effRec{-1, 0})
 		c.touched = true
 		c.foreign = in.foreign
+		c.genCtr = in.genCtr
+		c.disk = in.disk
 		w.inst = append(w.inst, c)
 		if o.k == kCopySwitch {
 			w.act = len(w.inst) - 1
@@ -415,9 +458,13 @@ func (w *mworld) apply(o op, opIdx int) {
 		if s.jd[a] {
 			s.reset[a] = false
 		}
+		if s.gen[a] == -1 {
+			in.genCtr++
+			s.gen[a] = in.genCtr
+		}
 	}
 	if record {
-		in.eff = append(in.eff, opIdx)
+		in.eff = append(in.eff, effRec{opIdx, arg})
 	}
 }
 
@@ -442,9 +489,20 @@ func (w *mworld) key() string {
 	fmt.Fprintf(&b, "act%d,ds%v|", w.act, w.diskStor)
 	for _, in := range w.inst {
 		in.mstate.str(&b)
+		b.WriteString("disk:")
+		for a := range in.disk {
+			in.disk[a].str(&b)
+		}
 		fmt.Fprintf(&b, "th%d,f%v,snaps%d:", in.th, in.foreign, len(in.snaps))
 		for i := range in.snaps {
 			in.snaps[i].st.str(&b)
+			for a := 0; a < nAddr; a++ {
+				if in.snaps[i].st.gen[a] != in.gen[a] {
+					b.WriteString("R") // the object this snapshot brings back has been replaced since
+				} else {
+					b.WriteString("=")
+				}
+			}
 		}
 		b.WriteString("||")
 	}
